@@ -421,6 +421,8 @@ int Choose(int n, const std::vector<std::string>& names, const char* tag) {
 // ------------------------------------------------------------------------------------------------ hooks
 
 const void* g_last_obj = nullptr;
+const void* g_last_objs[8] = {};
+unsigned g_last_pos = 0;
 
 // the operation `op` of process st is about to execute: does it touch a dead part of somebody's stack?
 void CheckDeadStack(ProcState* st, const Op& op) {
@@ -448,6 +450,7 @@ void CheckDeadStack(ProcState* st, const Op& op) {
 
 void HookBeginOp(const Op& op) {
   g_last_obj = op.obj;
+  g_last_objs[g_last_pos++ % 8] = op.obj;
   auto* st = Cur();
   if (st == nullptr || !st->tracked || st->ambient != 0) {
     if (st != nullptr) {
@@ -944,8 +947,8 @@ void NameOffsetAlias(long off, const std::string& alias) {
   G().off_alias[off] = alias;
 }
 
-const void* LastOpObject() {
-  return g_last_obj;
+const void* LastOpObject(int back) {
+  return back == 0 ? g_last_obj : g_last_objs[(g_last_pos - 1 - static_cast<unsigned>(back)) % 8];
 }
 
 std::string NameOf(std::uintptr_t addr) {
